@@ -31,8 +31,9 @@ def _is_scalar_member(n):
 
 
 class Summaries:
-    def __init__(self, F, funcs, handlers):
+    def __init__(self, F, funcs, handlers, is_member=None):
         self.F = F
+        self.is_member = is_member or _is_scalar_member
         self.by_q = {}
         for f in funcs:
             if f.get('body') is not None:
@@ -59,18 +60,18 @@ class Summaries:
             for x in walk(st):
                 if x['k'] == 'Assign':
                     l = strip_all(x['l'])
-                    if _is_scalar_member(l):
+                    if self.is_member(l):
                         reads_self = any(y['k'] == 'Mem' and _key(y) == _key(l) for y in walk(x['r']))
                         evs.append(('rmw' if reads_self else 'set', _key(l)))
                         pure_lhs.add(id(l))
                 elif x['k'] == 'CAssign':
                     l = strip_all(x['l'])
-                    if _is_scalar_member(l):
+                    if self.is_member(l):
                         evs.append(('rmw', _key(l)))
                         pure_lhs.add(id(l))
                 elif x['k'] == 'Un' and ('++' in x.get('op', '') or '--' in x.get('op', '')):
                     l = strip_all(x['e'])
-                    if _is_scalar_member(l):
+                    if self.is_member(l):
                         evs.append(('rmw', _key(l)))
                         pure_lhs.add(id(l))
                 elif x['k'] == 'Call':
@@ -79,7 +80,7 @@ class Summaries:
                     elif 'callee' in x:
                         evs.append(('icall',))
             for x in walk(st):
-                if _is_scalar_member(x) and id(x) not in pure_lhs:
+                if self.is_member(x) and id(x) not in pure_lhs:
                     evs.append(('read', _key(x)))
             # evaluation order inside one statement: reads and calls (arguments) come before the store of an assignment
             order = {'read': 0, 'call': 1, 'icall': 1, 'rmw': 2, 'set': 3}
@@ -237,3 +238,68 @@ def rule_gen_reset(ctx, R, arch, min_pairs=3):
                     found=('read before it is set (first at `%s`): the value left by the previous call leaks into this one' % show(st)[:70]) if nd else 'set first')
     if n < min_pairs:
         raise AnalysisBroken('GEN-RESET(%s): only %d (entry point, member) pairs examined' % (arch, n))
+
+
+# ---------------------------------------------------------------------------------------------------------------------------
+# [CTOR-INIT] a member the constructor leaves indeterminate is not read by the functions that are supposed to give it its first value
+import re as _re
+
+_PLAIN = _re.compile(r'^(const )?((unsigned |signed )?(char|short|int|long|long long)|unsigned|bool|size_t|u?int(8|16|32|64)_t|randomx_flags|[\w: ]+\*+)$')
+
+
+def _is_plain_member(n):
+    return n['k'] == 'Mem' and n.get('dk') == 'Field' and n.get('cls') and bool(_PLAIN.match((n.get('ty') or '').strip()))
+
+
+def rule_ctor_init(ctx, R, arch):
+    A = jit.ARCH[arch]
+    F, hs = jit.handlers(ctx, arch)
+    R.rule('CTOR-INIT', 'a plain member (integer, flag word, pointer) of the JIT compiler object that neither the constructor nor a default member initialiser sets has an indeterminate value in a new object '
+           '(the object is carved out of recycled heap memory): at least one of the functions that assign it must do so without reading it first, otherwise whichever runs first on a new object reads the '
+           'previous owner\'s bytes (needs / must-set summaries of GEN-RESET over every function that writes the member)', min_instances=1)
+    R.saw(config=A['config'], unit=A['unit'])
+    base = A['unit'].split('/')[-1].rsplit('.', 1)[0]
+    funcs = [f for f in F.all_funcs() if f.get('body') is not None and f['file'].split('/')[-1].rsplit('.', 1)[0] in (base, base + '_static')]
+    handlers = [h.f for h in hs.values() if hasattr(h, 'f')]
+    S = Summaries(F, funcs, handlers, is_member=_is_plain_member)
+    cls = A['cls']
+    rec = [r for u in (F.unit(A['unit']),) for r in u.get('records', []) if r['q'] == cls]
+    if not rec:
+        raise AnalysisBroken('CTOR-INIT(%s): record %s not found' % (arch, cls))
+    fields = [fd for fd in rec[0]['fields'] if _PLAIN.match((fd.get('ty') or '').strip())]
+    ctors = [f for f in funcs if f.get('cls') == cls and f.get('kind') == 'ctor']
+    if not ctors:
+        raise AnalysisBroken('CTOR-INIT(%s): no constructor of %s with a body' % (arch, cls))
+    n = 0
+    for fd in fields:
+        m = (cls, fd['name'])
+        init = fd.get('init') is not None
+        for c in ctors:
+            if any(i_.get('member') == fd['name'] for i_ in (c.get('inits') or [])):
+                init = True
+            elif S.summary(c['q'], m)[1]:
+                init = True
+        n += 1
+        where = '%s:%d' % (rec[0]['file'], rec[0]['line'])
+        if init:
+            R.ok('%s::%s initialised by the constructor' % (cls.split('::')[-1], fd['name']), where)
+            continue
+        writers, readers = [], []
+        for q, f in S.by_q.items():
+            if f.get('kind') in ('ctor', 'dtor'):
+                continue
+            for evs in S.node_effects(f).values():
+                for e in evs:
+                    if e[0] in ('set', 'rmw') and e[1] == m and q not in writers:
+                        writers.append(q)
+                    if e[0] in ('read', 'rmw') and e[1] == m and q not in readers:
+                        readers.append(q)
+        inst = '%s::%s (not set by the constructor)' % (cls.split('::')[-1], fd['name'])
+        if not writers:
+            R.check(not readers, inst, where, expected='never read, or assigned somewhere', found='read in %s, never assigned' % ', '.join(r_.split('::')[-1] for r_ in readers[:3]) if readers else 'unused')
+            continue
+        clean = [q for q in writers if not S.summary(q, m)[0]]
+        R.check(bool(clean), inst, where, expected='a function that assigns it without reading it first (%s)' % ', '.join(w.split('::')[-1] for w in writers[:4]),
+                found=('every writer reads it first: ' + '; '.join('%s at `%s`' % (w.split('::')[-1], show(S.first_need.get((w, m)))[:60] if S.first_need.get((w, m)) is not None else '?') for w in writers[:3])) if not clean else 'first assigned by ' + clean[0].split('::')[-1])
+    if n < 2:
+        raise AnalysisBroken('CTOR-INIT(%s): only %d plain members found' % (arch, n))
